@@ -588,3 +588,25 @@ def run (ctx):
   for f in (mw, eq, fp, efp, ae):
     for nm, node in defs.undefined_names(repo, f):
       ctx.bad('R-DEF', f, "undefined name `%s`" % nm, "NameError on this path", (f.module, node), 'D1')
+  # ---- mechanisms this property shares with others: a lookup answers from the table the accepted flow-mods built - a flow-mod that is
+  # refused must leave it untouched (C04's rules about the ADD path), and the exact-slot view of a port (C17) is not involved
+  ctx.include('C04', ['_flow_mod_add'], "the entries a lookup ranks are those the accepted flow-mods installed; a refused flow-mod changes nothing")
+  # a lookup result remembered across lookups must be remembered under the packet's header fields themselves: a hash of them
+  # (ofp_match.hash_code() is an XOR of field hashes cut to 31 bits) is the same for different headers - tp_src/tp_dst swapped, in_port
+  # and tp_src exchanged - and the second frame of such a pair is answered with the first frame's entry (or miss)
+  for f in (efp,):
+    lossy = []
+    for n in walk_no_nested(f.node):
+      idx = None
+      if isinstance(n, ast.Subscript): idx, cont = n.slice, n.value
+      elif isinstance(n, ast.Compare) and len(n.ops) == 1 and isinstance(n.ops[0], (ast.In, ast.NotIn)): idx, cont = n.left, n.comparators[0]
+      elif isinstance(n, ast.Call) and isinstance(n.func, ast.Attribute) and n.func.attr in ('get', 'setdefault', 'pop') and n.args: idx, cont = n.args[0], n.func.value
+      if idx is None: continue
+      d_ = q.single_def(f.node, idx.id) if isinstance(idx, ast.Name) else idx
+      cd_ = q.single_def(f.node, cont.id) if isinstance(cont, ast.Name) else cont
+      is_hash = isinstance(d_, ast.Call) and ((isinstance(d_.func, ast.Attribute) and d_.func.attr in ('hash_code', '__hash__')) or (isinstance(d_.func, ast.Name) and d_.func.id == 'hash'))
+      is_state = cd_ is not None and isinstance(cd_, ast.Attribute) and norm(cd_.value) == 'self'
+      if is_hash and is_state: lossy.append((n, d_, cd_))
+    ctx.ob('R-AGREE', f, "what a lookup remembers is not keyed by a hash of the header fields", not lossy, "no memo keyed by a hash value" if not lossy else
+           "%s is looked up / stored under `%s`: two different headers with the same hash value (for hash_code(): transport ports swapped, in_port and tp_src exchanged, addresses differing in a masked-out bit pattern) share one "
+           "remembered result - the second frame is reported as matching the first frame's entry, or as a miss, although the table says otherwise" % (norm(lossy[0][2]), norm(lossy[0][1])) if lossy else "", (f.module, lossy[0][0]) if lossy else f, 'D2')
